@@ -102,15 +102,17 @@ fn is_arith(msg: &str) -> bool {
 }
 
 fn run_cli(bin: &str, args: &[String]) -> (i32, String) {
-    match std::process::Command::new(bin).args(args).stdin(std::process::Stdio::null()).output() {
-        Ok(o) => {
-            let code = o.status.code().unwrap_or(-1);
-            let err = String::from_utf8_lossy(&o.stderr).to_string();
-            let interesting: Vec<&str> = err.lines().filter(|l| l.contains("panicked") || l.contains("overflow") || l.starts_with("Error")).collect();
-            (code, interesting.join(" | "))
-        }
-        Err(e) => (-2, format!("spawn failed: {e}")),
+    // under a timeout: a worker that panics (overflow check) leaves the pipeline hanging
+    let binp = std::path::Path::new(bin);
+    let mut r = crate::gen::cli::Run::new(binp, &[]).timeout_s(240);
+    r.args = args.to_vec();
+    let o = r.run();
+    let err = String::from_utf8_lossy(&o.stderr).to_string();
+    let interesting: Vec<&str> = err.lines().filter(|l| l.contains("panicked") || l.contains("overflow") || l.starts_with("Error")).collect();
+    if o.timed_out {
+        return (-3, format!("did not exit within 240 s (hang) | {}", interesting.join(" | ")));
     }
+    (o.code.unwrap_or(-1), interesting.join(" | "))
 }
 
 /// CLI in both profiles: same exit class, same archive bytes, no arithmetic panic.
@@ -172,7 +174,9 @@ fn cli_leg(ctx: &Ctx, rep: &mut Report) {
         rep.count("cli_cases");
         let case = json!({"cli": label, "args": args});
         for (pname, code, msg, _) in &res {
-            if *code == 101 || is_arith(msg) {
+            if *code == -3 {
+                rep.oracle_fail("profile-cli-hang", &format!("{pname} CLI: {msg}"), case.clone());
+            } else if *code == 101 || is_arith(msg) {
                 rep.oracle_fail("profile-cli-panic", &format!("{pname} CLI: exit {code}: {msg}"), case.clone());
             }
         }
